@@ -1155,6 +1155,85 @@ def c01_name_cap_operand(ctx):
     return q.result()
 
 
+def _producer(p, val):
+    """the ('call', name, args, site) event whose return value is `val` (identity / same object), or None"""
+    ev = p.events
+    for j, e in enumerate(ev):
+        if e[0] == "ret":
+            rv = e[2]
+            same = rv is val or (isinstance(rv, Ref) and isinstance(val, Ref) and rv.obj == val.obj and rv.path == val.path) \
+                or (isinstance(rv, BV) and isinstance(val, BV) and rv.e.eq(val.e))
+            if same:
+                for k in range(j - 1, -1, -1):
+                    if ev[k][0] == "call" and ev[k][1] == e[1]:
+                        return ev[k]
+    return None
+
+
+def c05_removed_addr_key(ctx):
+    q = Q("c05_removed_addr_key", ["DnsCache::evict_expired_addr::{closure}::{closure} (reporting an expired address)"],
+          "every path of the closure that reports an expired address", ["calls are opaque; value provenance only"])
+    cands = [n for n in ctx.funcs if "::evict_expired_addr::{closure#0}::{closure#0}" in n]
+    if len(cands) != 1:
+        q.unknown.append(f"closure: {len(cands)} candidates")
+        return q.result()
+    ex = Explorer(ctx.funcs, ctx.consts, max_paths=300)
+    n = 0
+    for i, p in enumerate(ex.explore(cands[0])):
+        ent = [e for e in p.events if e[0] == "call" and "HashMap" in e[1] and e[1].split("::")[-1] == "entry"]
+        if not ent:
+            continue
+        n += 1
+        key = ent[0][2][1]
+        ts = _producer(p, key)
+        gn = _producer(p, ts[2][0]) if ts and ts[1].endswith("to_string") else None
+        if not (gn and gn[1].split("::")[-1] == "get_name"):
+            q.fail.append(("an expired address is reported under a name that is not the record's own name (the run loop looks instances up by that name, case-sensitively)",
+                           f"path {i}: key produced by {ts[1] if ts else None} <- {gn[1] if gn else None}"))
+    if n == 0:
+        q.unknown.append("no path reports an expired address")
+    else:
+        q.nontrivial += n
+    return q.result()
+
+
+def c18_affected_host_lowercase(ctx):
+    q = Q("c18_affected_host_lowercase", ["DnsCache::remove_records_on_intf (mapping hosts that lost addresses back to instances)"],
+          "every explored path of remove_records_on_intf that looks an SRV target up in the set of affected hosts", ["calls are opaque; value provenance only"])
+    f = ctx.funcs[ctx.fn("::remove_records_on_intf")]
+    # window: start right after DnsSrv::host() is obtained is not needed - the look-up is reached in the first iteration
+    ex = Explorer(ctx.funcs, ctx.consts, max_paths=4000, stop_calls=())
+    n = 0
+    blk = _block_after_call(f, r"DnsSrv::host")
+    if blk is None:
+        q.unknown.append("DnsSrv::host not called in remove_records_on_intf")
+        return q.result()
+    hb = [b for b in f.blocks if re.search(r"DnsSrv::host\(", f.blocks[b][1])][0]
+    paths = ex.explore(f.name, start_block=hb)
+    for i, p in enumerate(paths):
+        calls = [e for e in p.events if e[0] == "call"]
+        if not calls or not calls[0][1].endswith("DnsSrv::host"):
+            continue
+        cont = [e for e in calls if e[1].split("::")[-1] == "contains" and "HashSet::<String>" in e[1]]
+        if not cont:
+            continue
+        n += 1
+        arg = cont[0][2][1]
+        prod = None
+        # the argument is a reference to a local holding the lowered String
+        v = _deref_val(p, arg) if isinstance(arg, Ref) else arg
+        prod = _producer(p, v if v is not None else arg)
+        if not (prod and prod[1].endswith("to_lowercase")):
+            q.fail.append(("the SRV target host is looked up in the (lower-cased) set of affected hosts without being lower-cased: instances on a mixed-case host are not resolved again after an interface loses their address",
+                           f"path {i}: look-up key produced by {prod[1] if prod else None}"))
+        break
+    if n == 0:
+        q.unknown.append("affected-host look-up not reached")
+    else:
+        q.nontrivial += 1
+    return q.result()
+
+
 def z3_vars(e):
     out, seen, stack = [], set(), [e]
     while stack:
@@ -1348,7 +1427,8 @@ def c07_reannounce_delay(ctx):
 SPECS = {
     "C11": [c11_new_lifetime, c11_predicates, c11_refresh_schedule, c11_reset_restarts, c11_cache_flush_rule],
     "C10": [c10_update_ttl, c10_known_answer_filter, c10_suppressed_ptr_no_additionals],
-    "C05": [c05_reset_restores, c05_verify_deadline, c05_verify_shortens_only, c05_evict_predicate],
+    "C05": [c05_reset_restores, c05_verify_deadline, c05_verify_shortens_only, c05_evict_predicate, c05_removed_addr_key],
+    "C18": [c18_affected_host_lowercase],
     "C07": [c07_probe_clock, c07_reannounce_delay],
     "C12": [c12_poll_timeout, c12_ipcheck_rearm, c12_hostname_timeout_timer, c12_conflict_probe_timer, c12_tiebreak_retry_timer, c11_cache_flush_rule, c05_verify_deadline],
     "C19": [c19_browse_backoff, c19_hostname_backoff, c19_resolve_retry, c19_initial_delay, c19_rerun_due, c19_browse_listener_gone],
